@@ -56,7 +56,7 @@ func (c Case) String() string {
 	return sb.String()
 }
 
-var MethodPool = []string{"GET", "POST", "PATCH", "FOO"}
+var MethodPool = []string{"GET", "POST", "PATCH", "FOO", "BAR"}
 
 // GenPool grows a pool of patterns sharing prefixes, parameters, catch-alls and hostnames, including variants that
 // declare a different wildcard name at the same position (so that conflicts occur).
@@ -144,6 +144,21 @@ func GenOps(r *rand.Rand, c *Case, n int, txnMode int, invalid bool) {
 			}
 		}
 		m, p := pick()
+		// often stay in the neighbourhood of the previous write: same method, a pool pattern extending (or extended by)
+		// the pattern just written, so that consecutive writes of one transaction go through the same nodes
+		if len(c.Ops) > 0 && r.IntN(3) == 0 {
+			if last := c.Ops[len(c.Ops)-1]; last.Pattern != "" && last.Bad == "" {
+				var rel []string
+				for _, q := range c.Pool {
+					if q != last.Pattern && (strings.HasPrefix(q, last.Pattern) || strings.HasPrefix(last.Pattern, q)) {
+						rel = append(rel, q)
+					}
+				}
+				if len(rel) > 0 {
+					m, p = last.Method, rel[r.IntN(len(rel))]
+				}
+			}
+		}
 		op := Op{Method: m, Pattern: p}
 		x := r.IntN(100)
 		switch {
@@ -537,6 +552,33 @@ func ObserveIter(v Viewer, it fox.Iter, methods, universe, prefixes []string) st
 			}
 		}
 	}
+	// Iter.Reverse must agree with the viewer's own Reverse (same state, two read paths)
+	if rv, ok := v.(interface {
+		Reverse(method, host, path string) (*fox.Route, bool)
+	}); ok && v != nil {
+		for _, m := range methods {
+			for i, p := range universe {
+				if i%2 == 1 {
+					continue
+				}
+				host, path := instantiate(p)
+				want, tsr := rv.Reverse(m, host, path)
+				var got *fox.Route
+				n := 0
+				for _, r := range it.Reverse(seq(m), host, path) {
+					got = r
+					n++
+				}
+				expect := want
+				if tsr && want != nil && !want.IgnoreTrailingSlashEnabled() && !want.RedirectTrailingSlashEnabled() {
+					expect = nil
+				}
+				if got != expect || n > 1 {
+					fmt.Fprintf(&sb, "INCONSISTENT %s %s%s: Reverse=%p(tsr=%t) Iter.Reverse=%p(x%d)\n", m, host, path, want, tsr, got, n)
+				}
+			}
+		}
+	}
 	for _, pre := range prefixes {
 		var got []string
 		for m, r := range it.Prefix(seq(methods...), pre) {
@@ -570,4 +612,25 @@ func Diff(want, got string) string {
 		}
 	}
 	return strings.Join(out, "\n")
+}
+
+// instantiate replaces every wildcard of a pattern by a fixed value and splits host and path.
+func instantiate(p string) (host, path string) {
+	var sb strings.Builder
+	for i := 0; i < len(p); {
+		switch {
+		case p[i] == '{':
+			sb.WriteString("v")
+			i += strings.IndexByte(p[i:], '}') + 1
+		case p[i] == '*' && i+1 < len(p) && p[i+1] == '{':
+			sb.WriteString("v/w")
+			i += strings.IndexByte(p[i:], '}') + 1
+		default:
+			sb.WriteByte(p[i])
+			i++
+		}
+	}
+	s := sb.String()
+	k := strings.IndexByte(s, '/')
+	return s[:k], s[k:]
 }
